@@ -52,7 +52,7 @@ def meta_of(step, t, sent_has_delay=True):
 
 class C10(InterpProp):
     id = 'C10'
-    anomaly_tags = ('meta', 'macro', 'time')
+    anomaly_tags = ('meta', 'macro', 'time', 'ctx')
     # observables compared with the model (see InterpProp.normalize)
     cmp_eff = ('meta',)
     cmp_step = ()
@@ -89,7 +89,10 @@ class C10(InterpProp):
         ign = rnd.random() < 0.25        # the monitored interpreter may well ignore contracts
         twice = rnd.random() < 0.15
         # (the same recording callable may be attached twice: it then hears of everything twice)
-        ops = [['create', 0, ign, [], 0], ['create', 0, ign, [], 0],
+        # (sometimes all the interpreters of the client, the one of the property statechart included, are given the same
+        #  configuration mapping as initial context)
+        ctx0 = [['w', 0]] if rnd.random() < 0.15 else []
+        ops = [['create', 0, ign, ctx0, 0], ['create', 0, ign, ctx0, 0],
                ['attach', 0, 0]] + ([['attach', 0, 0]] if twice else []) + [['bindprop', 0, 1], ['attach', 0, 1]]
         for op in ops1:
             ops.append(op)
